@@ -150,6 +150,17 @@ def verdict_paths(g, args):
             return None
         v = const_eval(ret)
         if v is None:
+            # return (c ? K1 : K2): two outcomes of one more test
+            r_ = ret
+            while r_ is not None and r_.get("k") in ("paren", "icast", "cast"):
+                r_ = r_["ch"][0]
+            if r_ is not None and r_.get("k") == "cond":
+                v1, v2 = const_eval(r_["ch"][1]), const_eval(r_["ch"][2])
+                if v1 is not None and v2 is not None:
+                    base = [(bind(c, g, args), t) for c, t in tests]
+                    out.append((v1, base + [(bind(r_["ch"][0], g, args), True)]))
+                    out.append((v2, base + [(bind(r_["ch"][0], g, args), False)]))
+                    continue
             return None
         out.append((v, [(bind(c, g, args), t) for c, t in tests]))
     return out
